@@ -74,8 +74,8 @@ def Rank.localOf (r : Rank) (g : Int) : Option Nat :=
 
 /-- the rank's table for `ref_node_ghost_*`: global, part and the `ldim` values of every stored vertex -/
 def toGNodes {β : Type} (r : Rank) (rows : List (List β)) : List (GNode β) :=
-  List.zipWith (fun (gp : Nat × Nat) (v : List β) => (⟨(gp.1 : Int), (gp.2 : Int), v⟩ : GNode β))
-    (r.l2g.zip r.part) rows
+  (List.range r.n).map fun i =>
+    (⟨((r.l2g.getD i 0 : Nat) : Int), ((r.part.getD i 0 : Nat) : Int), rows.getD i []⟩ : GNode β)
 
 /-- `ref_node_ghost_int / _dbl (vector, ldim)` on every rank -/
 def ghostRows {β : Type} [Inhabited β] (ty : RefType) (ldim : Nat) (w : World Rank)
